@@ -1,6 +1,6 @@
 SPECIFICATION MCSpec
-CONSTANTS Sizes = {1, 2, 3, 4, 5, 6}
-          MaxAppended = 14
+CONSTANTS Sizes = {1, 2, 3, 4, 5, 6, 7, 8}
+          MaxAppended = 20
 INVARIANTS BoundOK NothingLost NoEmptyWrite AfterFlush
 CONSTRAINT Bound
 ACTION_CONSTRAINT EdgeOut
